@@ -1,6 +1,6 @@
 #!/bin/sh
 # dev helper: generate + verify one unit, show verus diagnostics
-op=$1; repo=${2:-/repo}
+op=$1; repo=${2:-/tmp/repo-dev}
 mkdir -p /tmp/vx
 python3 /verif/tools/vgen.py /verif/contracts/$op.toml $repo /tmp/vx > /tmp/vx/$op.json || { tail -3 /tmp/vx/$op.json; exit 2; }
 python3 -c "
